@@ -39,11 +39,11 @@ var c20Class = map[string][2]string{
 	"File.AddChart":                {"pathDirect (skeleton pinned; not exercised by the paths op)", "CellNameToCoordinates"},
 	"File.DeleteChart":             {"pathDirect (skeleton pinned; not exercised by the paths op)", "CellNameToCoordinates"},
 	"File.GetColVisible":           {"Ref.columnNameToNumber (codec theorems; skeleton pinned; API not exercised)", "ColumnNameToNumber"},
-	"File.SetColVisible":           {"unmodelled: column range \"A:C\" through parseColRange", ""},
+	"File.SetColVisible":           {"RefMulti.parseColRange", "parseColRange"},
 	"File.GetColOutlineLevel":      {"Ref.columnNameToNumber (codec theorems; skeleton pinned; API not exercised)", "ColumnNameToNumber"},
 	"File.SetColOutlineLevel":      {"Ref.columnNameToNumber (codec theorems; skeleton pinned; API not exercised)", "ColumnNameToNumber"},
-	"File.SetColStyle":             {"unmodelled: column range \"A:C\" through parseColRange", "CoordinatesToCellName CoordinatesToCellName"},
-	"File.SetColWidth":             {"unmodelled: column range \"A:C\" through parseColRange", ""},
+	"File.SetColStyle":             {"RefMulti.parseColRange", "parseColRange CoordinatesToCellName CoordinatesToCellName"},
+	"File.SetColWidth":             {"RefMulti.parseColRange (colWidthRange)", "parseColRange"},
 	"File.GetColStyle":             {"Ref.columnNameToNumber (codec theorems; skeleton pinned; API not exercised)", "ColumnNameToNumber"},
 	"File.GetColWidth":             {"Ref.columnNameToNumber (codec theorems; skeleton pinned; API not exercised)", "ColumnNameToNumber"},
 	"File.InsertCols":              {"Ref.columnNameToNumber (codec theorems; skeleton pinned; API not exercised)", "ColumnNameToNumber"},
@@ -79,7 +79,7 @@ var c20Callees = map[string]bool{
 	"getCellStringFunc": true, "CellNameToCoordinates": true, "CoordinatesToCellName": true,
 	"rangeRefToCoordinates": true, "cellRefsToCoordinates": true, "getCell": true,
 	"addVMLObject": true, "deleteFormControl": true, "ColumnNameToNumber": true, "ColumnNumberToName": true,
-	"setCellIntFunc": true, "setCellTimeFunc": true, "setCellValueFunc": true, "setCellString": true, "addComment": true, "getCellFormula": true,
+	"setCellIntFunc": true, "setCellTimeFunc": true, "setCellValueFunc": true, "setCellString": true, "addComment": true, "getCellFormula": true, "parseColRange": true,
 }
 
 // receiver, function, expected skeleton (callees in source order, space separated), model path
@@ -113,6 +113,7 @@ var c20Expect = [][4]string{
 	{"File", "MergeCell", "rangeRefToCoordinates CoordinatesToCellName CoordinatesToCellName", "mergeCellRef"},
 	{"File", "UnmergeCell", "rangeRefToCoordinates rangeRefToCoordinates", "mergeCellRef"},
 	{"File", "GetPictures", "CellNameToCoordinates", "pathDirect"},
+	{"File", "parseColRange", "ColumnNameToNumber ColumnNameToNumber", "RefMulti.parseColRange"},
 }
 
 // function, source pattern (regular expression over the whitespace-squashed source; identifiers
@@ -122,6 +123,8 @@ var c20Patterns = [][3]string{
 	{"", "rangeRefToCoordinates", `len\(\w+\) != 2`},
 	{"File", "MergeCell", `rangeRefToCoordinates\(\w+ \+ ":" \+ \w+\)`},
 	{"File", "UnmergeCell", `rangeRefToCoordinates\(\w+ \+ ":" \+ \w+\)`},
+	{"File", "parseColRange", `len\(\w+\) > 2`},
+	{"File", "SetColWidth", `parseColRange\(\w+ \+ ":" \+ \w+\)`},
 }
 
 func c20Skeleton(fd *ast.FuncDecl) string {
